@@ -105,6 +105,12 @@ def gen_cases(rng, n):
             for lo in lows:
                 hi = rng.choice([E.op("sub", E.sym("K"), E.num(1)), E.sym("K"), E.num(4)])
                 out.append({"seq": {"kind": kind, "term": term, "it": "i", "lo": lo, "hi": hi}, "plus": rng.choice([None, "x", "2"])})
+    # symbols spelled like mathematical constants in a case the parser does not treat as one (E, e, pi, OO, infinity), in
+    # expressions built by the parser itself: what the backend reads back from the printed text must still be those symbols
+    for w in ("E", "e", "pi", "Pi", "OO", "infinity"):
+        for body in (E.sym(w), E.op("add", E.sym(w), E.num(1)), E.op("mul", E.sym("N_1"), E.op("ceil", E.fun("log2", E.op("div", E.sym(w), E.sym("x"))))),
+                     E.op("pow", E.sym(w), E.sym("x"))):
+            out.append({"expr": body, "via_parser": True})
     for t in ["PI * x", "exp(1) * y", "2 * PI + x", "x ^ -1", "x ^ (1/2) * y ^ (3/2)", "-x", "-(x + y)", "x - y", "1/(x + y)", "x/y/2",
               "(x ^ 2) ^ y", "x ^ y ^ 2", "f(x) ^ -2", "lambda ^ in", "2 ^ -x", "-2 ^ x", "(-2) ^ x", "x // y", "x % y", "0.001 * x", "x * 1.5e-07"]:
         out.append({"text": t})
